@@ -948,8 +948,9 @@ class UniformGrid(_HyperRectangleGrid):
                 " is a diagonal matrix."
             )
 
-        # Calculate step-size of the cube.
-        step_sizes = np.array([np.linalg.norm(axis) for axis in self.axes])
+        # Calculate the signed step of the cube along each (axis-parallel) direction: a negative
+        # diagonal entry means that the grid runs towards smaller coordinates.
+        step_sizes = np.diagonal(self.axes)
         coord = np.array([(point[i] - self.origin[i]) / step_sizes[i] for i in range(self.ndim)])
 
         if which == "origin":
